@@ -288,3 +288,10 @@ def hooks_stash_apply(trace, viol):
     st = viol.get("step")
     return (trace.get("variant") or {}).get("world", {}).get("mode") == "hooks" and (ap is not None or human_before_push) \
         and isinstance(st, int) and st > (ap if ap is not None else push)
+
+
+@predicate("replay_intermediate_notes")
+def replay_intermediate_notes(trace, viol):
+    """the two executions differ on a commit that is not the tip of the rewritten range"""
+    return viol.get("class") == "notes_differ_on_lines_the_commit_adds" and \
+        (trace.get("variant") or {}).get("env", {}).get("GIT_AI_VERIF_FLAGS") == "decline_fast_path"
